@@ -1,4 +1,5 @@
 """C05 (history property; see DESIGN.md section 5)."""
+import gen
 from props.hist_base import HistPlugin
 
 
@@ -17,3 +18,10 @@ class Plugin(HistPlugin):
             'writes of which one fails or generates an _id; distinct by canonical JSON.')
     FINDING_BITS = 4 | 8
     UNDECIDED_BITS = 1 | 2 | 16
+
+    def gen_case(self, rng, i, tier):
+        gen.TINY[0] = rng.random() < 0.6
+        try:
+            return HistPlugin.gen_case(self, rng, i, tier)
+        finally:
+            gen.TINY[0] = False
